@@ -233,6 +233,29 @@ func checkFieldsShip(text string, params map[string]interface{}) (outcome, error
 	if derr := sameTree(st.Fields, f2, looseEq); derr != nil {
 		return out, fmt.Errorf("printed field list %q re-parses to different fields: %v [reprinted: %q]", clip(out.printed), derr, clip(f2.String()))
 	}
+	// every field also travels inside hybridqp.ExprOptions (expression + output column reference)
+	for i, f := range st.Fields {
+		if _, isWildcard := f.Expr.(*influxql.Wildcard); isWildcard {
+			continue
+		}
+		if _, isRegex := f.Expr.(*influxql.RegexLiteral); isRegex {
+			continue
+		}
+		eo := hybridqp.ExprOptions{Expr: f.Expr, Ref: influxql.VarRef{Val: f.Name(), Type: influxql.Float}}
+		if strings.EqualFold(eo.Ref.Val, "inf") || strings.EqualFold(eo.Ref.Val, "nan") || hasCtrl(eo.Ref.Val) {
+			continue // known classes, counted through the tree predicates when they occur in expressions
+		}
+		var back hybridqp.ExprOptions
+		if err := back.Unmarshal(eo.Marshal()); err != nil {
+			return out, fmt.Errorf("field %d: ExprOptions.Unmarshal rejects what Marshal wrote (%q / %q): %v", i, clip(eo.Expr.String()), eo.Ref.String(), err)
+		}
+		if derr := sameTree(eo.Expr, back.Expr, looseEq); derr != nil {
+			return out, fmt.Errorf("field %d: ExprOptions.Expr %q comes back different: %v", i, clip(eo.Expr.String()), derr)
+		}
+		if derr := sameTree(eo.Ref, back.Ref, looseEq); derr != nil {
+			return out, fmt.Errorf("field %d: ExprOptions.Ref %q comes back different: %v", i, eo.Ref.String(), derr)
+		}
+	}
 	return out, nil
 }
 
